@@ -332,6 +332,11 @@ func GenNet(seed int64, n int, tier string, w *bufio.Writer) {
 				end, kind = "err", "cbor-cut"
 			}
 		}
+		if i == 0 {
+			// one frame whose payload is exactly the size limit: must be delivered
+			all = goBytes(sizedMessage(r, 1<<22).toks(), false)
+			k, end, kind, hints = 1, "eof", "at-limit", nil
+		}
 		emit(w, "case n%d k=%d end=%s %s", i, k, end, kind)
 		for _, h := range hints {
 			emit(w, "%s", h)
